@@ -349,7 +349,7 @@ Fixpoint remove_nth {A} (n : nat) (l : list A) : list A :=
   | x :: t, S m => x :: remove_nth m t
   end.
 Definition is_tensor (t : ty) : bool := match t with Tensor _ _ => true | _ => false end.
-(* the element of a scan input of type t scanned along axis a; None: ONNX does not admit this operand/axis *)
+(* the element of a scan input of type t scanned along axis a; None: ONNX does not allow this operand/axis *)
 Definition scan_element (t : ty) (a : Z) : option ty :=
   match t with
   | Tensor e None => Some (Tensor e None)
